@@ -392,6 +392,14 @@ class SystemLoss:
                 self.wspec[n] = ({k: Poly.const(0) for k in keys}, None)
             elif kind == 'float':
                 self.wspec[n] = ({k: Poly.const(2) for k in keys}, 2.0)
+            elif kind == 'len1':
+                # a weight given as a length-one array (explicitly accepted by set_loss_weights): the scalar it holds
+                v = sc(wprefix + '_' + n)
+                self.wspec[n] = ({k: v.data[()] for k in keys}, AT((1,), np.array([v.data[()]], dtype=object)))
+            elif kind == 'len1_dict':
+                dct = {k: sc(f'{wprefix}_{n}_{k}') for k in keys}
+                self.wspec[n] = ({k: x.data[()] for k, x in dct.items()},
+                                 {k: AT((1,), np.array([x.data[()]], dtype=object)) for k, x in dct.items()})
             elif kind == 'omitted':
                 # the field is not passed at all: the declared default of the weights class applies (1.0 for PDE systems, as
                 # documented for the single-loss weights)
